@@ -120,6 +120,32 @@ pub fn parse_pop(toks: &[&str]) -> Option<POp> {
     }
 }
 
+/// protocol rendering of a stored operation (undo points have none)
+pub fn op_toks(op: &Operation) -> Option<String> {
+    match op {
+        Operation::Create { uuid } => Some(format!("create {}", uuid.as_u128())),
+        Operation::Delete { uuid, .. } => Some(format!("delete {}", uuid.as_u128())),
+        Operation::Update {
+            uuid,
+            property,
+            value,
+            timestamp,
+            ..
+        } => Some(format!(
+            "update {} {} {} {} {}",
+            uuid.as_u128(),
+            enc_str(property),
+            match value {
+                Some(v) => enc_str(v),
+                None => "-".into(),
+            },
+            timestamp.timestamp(),
+            timestamp.timestamp_subsec_nanos()
+        )),
+        Operation::UndoPoint => None,
+    }
+}
+
 fn sync_result(r: &Result<(), Error>) -> String {
     match r {
         Ok(()) => "sync ok".into(),
@@ -352,10 +378,26 @@ impl Hist {
                 canon_db(&tasks)
             ));
         }
+        for r in 0..self.slots.len() {
+            let ops: Vec<String> = self.slots[r]
+                .obs
+                .lock()
+                .unwrap()
+                .unsynced
+                .iter()
+                .filter_map(op_toks)
+                .collect();
+            let mut line = format!("pend {} {}", r, ops.len());
+            for o in ops {
+                line.push_str(" ; ");
+                line.push_str(&o);
+            }
+            out.push(line);
+        }
         let c = self.chain.borrow();
         out.push(format!("chain len={}", c.versions.len()));
         for (i, v) in c.versions.iter().enumerate() {
-            out.push(format!("v{} {}", i + 1, shorten(&String::from_utf8_lossy(v))));
+            out.push(format!("v{} {}", i + 1, String::from_utf8_lossy(v)));
         }
         match &c.snapshot {
             None => out.push("snap none".into()),
